@@ -17,6 +17,61 @@ def behaviours(cfg, tag, simulate=None, seed=1):
     return list({json.dumps(x["hist"]): x for x in b}.values())
 
 
+def behaviour_scripts(v, thorough, rng, seed):
+    r = lib.tlc("mc/MC_Behaviours.tla", "gen/Gen_Behaviours_2.cfg", PID, "beh_gen2", workers=4, timeout=900)
+    two = list({json.dumps(x["hist"]) + json.dumps(x["initial"]): x for x in r.printed()}.values())
+    r = lib.tlc("mc/MC_Behaviours.tla", "gen/Gen_Behaviours.cfg", PID, "beh_gen7", workers=1, simulate=f"num={400 if thorough else 60}", extra=["-depth", "40", "-seed", str(seed)], timeout=900)
+    seven = list({json.dumps(x["hist"]) + json.dumps(x["initial"]): x for x in r.printed()}.values())
+    if not two or not seven:
+        raise lib.ToolError("no behaviour scripts generated")
+    scen = (two if thorough else rng.sample(two, min(len(two), 250))) + seven
+    for i, s in enumerate(scen):
+        s["id"] = i
+    sp = os.path.join(lib.outdir(PID), "beh_scenarios.ndjson")
+    op = os.path.join(lib.outdir(PID), "beh_obs.ndjson")
+    lib.write_ndjson(sp, scen)
+    lib.harness(["behaviours-run", sp, op], timeout=1800)
+    obs = lib.read_ndjson(op)
+    if len(obs) != len(scen):
+        raise lib.ToolError("behaviour runner returned too few observations")
+    nm = lambda m: [m["t"], m["ref"], m["v"], sorted(m.get("ids") or [])]
+    for s, o in zip(scen, obs):
+        if "tool_error" in o:
+            raise lib.ToolError("behaviour runner: " + o["tool_error"])
+        v.case("beh " + json.dumps([s["hist"], s["initial"]]))
+        case = {"handlers_installed_at_start": s["initial"], "operations": s["hist"]}
+        if o["notes"]:
+            v.add_drift("behaviour script could not be followed: " + "; ".join(o["notes"][:2]), case)
+            continue
+        for k in sorted(s["inbox"]):
+            exp = [nm(m) for m in s["inbox"][k]]
+            got = [nm(m) for m in o["inbox"].get(k, [])]
+            if exp != got:
+                refs = [m[1] for m in got if m[0] in ("reply", "which")]
+                if len(refs) != len(set(refs)):
+                    what = "a call was answered more than once"
+                elif [m for m in got if m not in exp]:
+                    what = "a caller received an answer it should not have received (wrong call, wrong value or wrong caller)"
+                else:
+                    what = "a call that the behaviour handled was not answered to its caller"
+                v.violation(what, {**case, "caller": k, "expected": exp, "got": got})
+        if [list(x) for x in s["gsLog"]] != o["gsLog"]:
+            v.violation("the gen_server's callbacks saw other requests (or in another order) than were sent", {**case, "expected": s["gsLog"], "got": o["gsLog"]})
+        if s["gsAlive"] != o["gsAlive"]:
+            v.violation("the gen_server is alive / gone where the model says the opposite", {**case, "model_alive": s["gsAlive"]})
+        for h in sorted(s["seen"]):
+            exp = [list(x) for x in s["seen"][h]]
+            got = o["seen"].get(h, [])
+            if exp != got:
+                v.violation("a gen_event handler saw other events / calls than the installed instance should have seen", {**case, "handler": h, "expected": exp, "got": got})
+        if o["installed"] is not None and sorted(s["installed"]) != sorted(o["installed"]):
+            v.violation("which_handlers reports other handlers than are installed", {**case, "expected": s["installed"], "got": o["installed"]})
+        sends = [x[4] for x in s["hist"] if x[0].startswith("gs_")]
+        if sends != o["gs_send_results"]:
+            v.violation("sending to the gen_server succeeded / failed where the model says the opposite", {**case, "expected": sends, "got": o["gs_send_results"]})
+    v.cov["behaviour_scripts"] = {"two_operations": len(scen) - len(seven), "seven_operations_simulated": len(seven)}
+
+
 def run(tier, seed):
     v = lib.Verdict(PID, tier, seed, "model_checking")
     thorough = tier == "thorough"
@@ -50,6 +105,15 @@ def run(tier, seed):
     v.cov["link_monitor_sequences"] = {"prioritised": len(pri), "executed": len(links)}
     lib.tlc_expect_violation("mc/MC_LocalProc.tla", "mc/MC_LocalProc_latelink.cfg", PID, "mc_latelink", "LinkedNotifiedAll")
     v.cov["mc_configs"].append({"cfg": "MC_LocalProc_latelink", "result": "counterexample to LinkedNotifiedAll: a link that lands after the exit snapshot (adversarial schedule replayed below)"})
+    # ---- OTP-style behaviours (Behaviours.tla): model check, then scripts on a real GenServerProcess / GenEventManager
+    bcfg = "mc3" if thorough else "mc2"
+    r = lib.tlc_expect_ok("mc/MC_Behaviours.tla", f"mc/MC_Behaviours_{bcfg}.cfg", PID, "beh_" + bcfg, timeout=3000)
+    v.cov["states"] += r.distinct
+    v.cov["transitions"] += r.generated
+    v.cov["mc_configs"].append({"cfg": f"MC_Behaviours_{bcfg}", "distinct": r.distinct, "generated": r.generated, "result": "AnswerOnce, AnswerToCaller, Answered, GeAnswered, EventOnce hold"})
+    lib.tlc_expect_violation("mc/MC_Behaviours.tla", "mc/MC_Behaviours_silent.cfg", PID, "beh_silent", "GeAnswered")
+    v.cov["mc_configs"].append({"cfg": "MC_Behaviours_silent", "result": "counterexample to GeAnswered without ErrorReplyOnMissing"})
+    behaviour_scripts(v, thorough, rng, seed)
     scen = list({json.dumps(b["hist"]): b for b in four + eight + links}.values())
     scen.append({"hist": [["late_link", "", "", ""]], "adversarial": "late_link"})
     for i, s in enumerate(scen):
